@@ -359,6 +359,7 @@ REWRITES_DOC = {
     'R19': 'an associated type of the implemented trait written out as the type the impl assigns to it (`Self::ValueIter` -> `ValueIter<\'a>`), where a trait impl is verified as inherent functions',
     'R20': 'total variant of a function that panics as documented: `E.unwrap()` -> `E.verif_unwrap_atomic(Ghost(CHK))`, `assert!(C, ..)` -> `verif_assert_atomic(C, Ghost(CHK))`: the models return only when no panic occurs and REQUIRE that the state named by CHK is unchanged when one does (C16: a refused call leaves the builder as it was)',
     'R21': 'state-passing form of an `FnMut` closure that assigns one captured local (Verus has no closures capturing `&mut`): callee variant `F: FnMut(A) -> R` -> `F: Fn(A, S) -> (R, S)` with `verif_st: &mut S` and every call `f(X)` -> `({ let verif_sp = f(X, *verif_st); *verif_st = verif_sp.1; verif_sp.0 })`; caller `x.g(|p| { B })` -> `x.g_st(|p, verif_st_in: S| { let mut V = verif_st_in; B }, &mut V)` with `return E;` -> `return (E, V);` (the classical translation: the closure reads and writes V only through the threaded value, the callee stores it back after every call)',
+    'R22': 'a trait impl that no longer defines a method under contract: the PROVIDED method of the trait declaration is verified in its place, with Self = the implementing type (what Rust runs when an override is removed)',
     'R15': 'fully qualified `std::cmp::f` / `core::cmp::f` -> `cmp::f` (the path through the crate\'s own `use std::cmp;`; both name the function the model module cmp declares)',
     'R8': 'struct fields widened to pub inside the unit',
     'R1': 'doc comments / #[inline] / derives dropped',
@@ -509,6 +510,10 @@ def anchor_lock():
 def check_anchor(key, count):
     ANCHOR_SEEN[key] = count
     want = anchor_lock().get(key)
+    if want is not None and key.endswith('|impl-fns') and count < want:
+        # fewer functions than the proof was written against: nothing runs that has no contract.  A function under contract that is gone is
+        # either found as the trait's provided method (R22) or reported as a lost anchor
+        return
     if want is not None and want != count:
         raise Undecided('anchor ambiguous: %s occurs %d time(s), the proof was written against %d' % (key, count, want))
 
@@ -664,7 +669,35 @@ def closure_head_at(text, pos):
 
 def weave_fn(src, container, name, nth, opts, subs, mode, sig_only=False):
     """returns (woven_text, record)"""
-    s, o, c = src.find_fn(container, name, nth)
+    impl_src = src
+    r22 = False
+    try:
+        s, o, c = src.find_fn(container, name, nth)
+    except Lost as e_:
+        # R22: the impl block of a trait no longer defines a method the template has a contract for.  If the trait declaration (same crate)
+        # PROVIDES that method, Rust runs the provided body with Self = the implementing type: that body is what is verified against the
+        # contract of the impl (`impl BitVec for SparseVector` without `count_zeros` -> `BitVec::count_zeros`'s default `self.len() - self.count_ones()`)
+        m_ = re.match(r"impl\s*(?:<[^>]*>\s*)?([A-Za-z_][A-Za-z0-9_]*)\s*(?:<[^>]*>\s*)?for\b", container)
+        if sig_only or not m_ or 'fn not found' not in str(e_):
+            raise
+        found_ = None
+        root_ = getattr(src, 'root', None)
+        if root_:
+            import glob as glob_
+            for p_ in sorted(glob_.glob(os.path.join(root_, 'src', '**', '*.rs'), recursive=True)):
+                t_ = Source(p_)
+                t_.root = root_
+                try:
+                    s2, o2, c2 = t_.find_fn('pub trait ' + m_.group(1), name, 1)
+                except Lost:
+                    continue
+                if t_.text[o2] == '{':
+                    found_ = (t_, s2, o2, c2)
+                    break
+        if not found_:
+            raise
+        src, s, o, c = found_
+        r22 = True
     raw = src.text[s:c + 1]
     line0 = src.line_of(s)
     # anchor-lock keys carry the source file: the same `impl .. for Iter<'a>::next` exists in several files
@@ -672,15 +705,17 @@ def weave_fn(src, container, name, nth, opts, subs, mode, sig_only=False):
     rewrites = {}
     if getattr(src, 'macro', None):
         rewrites['R13'] = 1
+    if r22:
+        rewrites['R22'] = 1
     if container.startswith('impl') and ' for ' in container and not sig_only:
         # a TRAIT impl block under contract: the number of functions it defines is locked.  A new override of a provided trait method
         # (`fn nth` next to `fn next`) would run instead of the default the contracts assume, and no obligation would be generated for it
         nfn = 0
-        for (o_, c_) in src.containers(container):
-            for s_, e_ in src.finditer_code(r'(?<![A-Za-z0-9_])fn\s+[A-Za-z0-9_]+', o_ + 1, c_):
-                if src.depth_at(s_, o_ + 1) == 0:
+        for (o_, c_) in impl_src.containers(container):
+            for s_, e_ in impl_src.finditer_code(r'(?<![A-Za-z0-9_])fn\s+[A-Za-z0-9_]+', o_ + 1, c_):
+                if impl_src.depth_at(s_, o_ + 1) == 0:
                     nfn += 1
-        check_anchor('%s:%s|impl-fns' % (os.path.relpath(src.path, getattr(src, 'root', os.path.dirname(src.path))), container), nfn)
+        check_anchor('%s:%s|impl-fns' % (os.path.relpath(impl_src.path, getattr(impl_src, 'root', os.path.dirname(impl_src.path))), container), nfn)
     pre_ = raw
     if any(kind == 'checked_index_total' for kind, arg, lines in subs):
         pre_, k0_ = rw_checked_index(raw)
